@@ -33,8 +33,11 @@ public:
 		new (_stor.buffer) T(std::move(object));
 	}
 
+	// Not a candidate for optional arguments: it would win over the copy constructor
+	// for non-const lvalues (and convert the source through its operator bool).
 	template<typename U = value_type, typename =
-		std::enable_if_t<std::is_constructible_v<T, U&&>>>
+		std::enable_if_t<std::is_constructible_v<T, U&&>
+			&& !std::is_same_v<std::remove_cv_t<std::remove_reference_t<U>>, optional>>>
 	constexpr optional(U &&value)
 	: _non_null{true} {
 		new (_stor.buffer) T(std::forward<U>(value));
